@@ -92,24 +92,19 @@ int main(void) {
   int st = (int)vp_slot_state(S);
   VP_ASSERT(st == 0 || st == 1, "pool left locked");
   u64 nh = vp_slot_head(S), nt = vp_slot_tail(S);
-  int k = 0, left = 0;
+  int left = 0;
   for (int i = 0; i < N; i++) if (present[i] && i != want) left++;
   if (st == 0) VP_ASSERT(left == 0, "pool unpublished although skipped tasks remain (tasks lost)");
   else {
-    VP_ASSERT(nh <= nt && nt <= 64 && nt - nh <= N + 1, "pool bounds corrupt");
+    /* entries never move (no relocation in get_task / steal_task): position h+i still belongs to entry i. The published
+       window [head, tail) must lie inside the original one, contain every remaining task and nothing else */
+    VP_ASSERT(nh <= nt && nh >= h && nt <= h + N, "pool window [head, tail) left the original entries (stale slots exposed)");
     for (int i = 0; i < N; i++) {
-      if (!present[i] || i == want) continue;
-      /* next non-null entry of the pool must be T[i] */
-      int found = 0;
-      for (int guard = 0; guard < N + 1 && !found; guard++) {
-        VP_ASSERT(nh < nt, "skipped task disappeared from the pool");
-        if (nh >= nt) break;
-        task_t* e = vp_slot_entry(S, nh); nh++;
-        if (e) { VP_ASSERT(e == T[i], "pool order / content changed for the skipped tasks"); found = 1; }
-      }
-      VP_ASSERT(found, "skipped task disappeared from the pool");
+      int inwin = (h + i >= nh && h + i < nt);
+      task_t* e = vp_slot_entry(S, h + i);
+      if (present[i] && i != want) { VP_ASSERT(inwin, "skipped task disappeared from the pool window"); VP_ASSERT(e == T[i], "pool content changed for a skipped task"); }
+      else if (inwin) VP_ASSERT(e == 0, "the taken task (or a stale entry) is still visible in the pool");
     }
-    for (int guard = 0; guard < N + 1 && nh < nt; guard++, nh++) VP_ASSERT(vp_slot_entry(S, nh) == 0, "the taken task (or a foreign entry) is still in the pool");
   }
   /* skipped tasks that stay behind must be re-advertised (arena snapshot may otherwise see an empty arena) */
   { int skipped = 0;
